@@ -59,9 +59,9 @@ def _extension_model(ctx: Ctx, f, site) -> None:
     for present in (None, 0, 1, 2):
         for n in (0, 1):
             genes = [Sym(f"g{i}") for i in range(present or 0)]
-            table = {repr(OTHER): [Sym("o0")]}     # the interpreter keys dicts by the printed form of a type
+            table = {OTHER: [Sym("o0")]}
             if present is not None:
-                table[repr(K)] = list(genes)
+                table[K] = list(genes)
             state = {"k": 0}
 
             def call_model(it, call, env, args, kwargs, state=state):
@@ -84,7 +84,7 @@ def _extension_model(ctx: Ctx, f, site) -> None:
             ok, why = True, ""
             for (trace, rv, notes), env_after in zip(runs, it.envs):
                 after = env_after.get(f"self.{dna_attr}")
-                lst = after.get(repr(K)) if isinstance(after, dict) else None
+                lst = after.get(K) if isinstance(after, dict) else None
                 raised = [e for e in trace if e.kind == "raise"]
                 need = max(0, n + 1 - (present or 0))
                 if notes or rv is UNKNOWN and not raised:
@@ -101,7 +101,7 @@ def _extension_model(ctx: Ctx, f, site) -> None:
                     ok, why = False, f"the read returns {rv!r}, not the gene stored at the position ({lst[n]!r})"
                 elif len(lst) != max(len(genes), n + 1):
                     ok, why = False, f"the read extends the gene list to {len(lst)} entries; {max(len(genes), n + 1)} are needed"
-                elif after.get(repr(OTHER)) != [Sym("o0")]:
+                elif after.get(OTHER) != [Sym("o0")]:
                     ok, why = False, "the read changes the genes of another type"
                 if ok is not True:
                     break
